@@ -955,7 +955,7 @@ impl Gen {
         if self.rng.chance(1, 40) && ops.len() >= 2 {
             ops.swap(0, 1); // non-consecutive
         }
-        if self.rng.chance(1, 12) && ops.len() >= 3 {
+        if self.rng.chance(1, 8) && ops.len() >= 3 {
             // a later link broken: operation k is replaced by an unrelated, in itself valid swap of
             // some funded pool, so its declared input is not what the previous hop produced
             let k = self.rng.range(1, ops.len() as u64 - 1) as usize;
